@@ -182,12 +182,17 @@ pub fn script_key_form(c: &DescCase) -> KeyForm {
 }
 
 /// Σ_caller: what the caller can put on the stack in `world` for target `t`.
-pub fn sigma_caller(c: &DescCase, t: &Target, world: &World, spend: &Spend) -> Vec<Vec<u8>> {
+pub fn sigma_caller(c: &DescCase, t: &Target, world: &World, spend: &Spend) -> Vec<Vec<u8>> { sigma_caller_known(c, t, world, spend, None) }
+
+/// `known`: the public keys the caller can put into a witness (None = all of the descriptor's keys)
+pub fn sigma_caller_known(c: &DescCase, t: &Target, world: &World, spend: &Spend, known: Option<&BTreeSet<String>>) -> Vec<Vec<u8>> {
     let mut s: Vec<Vec<u8>> = vec![vec![], vec![1]];
     let form = script_key_form(c);
     let leaves = c.tap_leaves();
     for kl in &c.keys {
-        s.push(key_ser(kl, form));
+        if known.map(|k| k.contains(kl)).unwrap_or(true) {
+            s.push(key_ser(kl, form));
+        }
         if world.sigs.contains(kl) {
             match t.sigver {
                 SigVer::Tapscript => {
@@ -356,7 +361,9 @@ pub struct Search {
 }
 
 /// Does any witness over Σ_caller(world) spend this output (standard rules)?
-pub fn witness_exists(c: &DescCase, world: &World, spend: &Spend, max_states: u64) -> Search {
+pub fn witness_exists(c: &DescCase, world: &World, spend: &Spend, max_states: u64) -> Search { witness_exists_known(c, world, spend, max_states, None) }
+
+pub fn witness_exists_known(c: &DescCase, world: &World, spend: &Spend, max_states: u64, known: Option<&BTreeSet<String>>) -> Search {
     let mut r = Search { found: None, key_path: false, states: 0, transitions: 0, capped: false };
     if let D::Tr(ik, _) = &c.d {
         if world.sigs.contains(ik) {
@@ -367,7 +374,7 @@ pub fn witness_exists(c: &DescCase, world: &World, spend: &Spend, max_states: u6
     }
     let leaves = c.tap_leaves();
     for (ti, t) in c.targets.iter().enumerate() {
-        let sigma = sigma_caller(c, t, world, spend);
+        let sigma = sigma_caller_known(c, t, world, spend, known);
         let lh = t.leaf.map(|i| TapLeafHash::from_byte_array(tapleaf_hash(0xc0, &leaves[i].1)));
         let chk = TxChecker::new(spend, t.script.clone(), lh);
         let ex = Exec::new(&t.script, t.sigver, true, &chk);
